@@ -1841,3 +1841,93 @@ func ruleYamlAliasesNotFollowedByHand(c *core.Ctx) {
 		c.Undecided(rule, "anchor/yaml decoders", 0, "no function with a *yaml.Node parameter found")
 	}
 }
+
+func init() {
+	reg("C10", rulePackageWalksRecurseThroughImportsOnly)
+	reg("C20", rulePackageWalksRecurseThroughImportsOnly)
+}
+
+// ---------------------------------------------------------------------------------------------------------------
+// TR1: the graph of *PackageInfo is a tree along Imports (collectPackages rejects import cycles) but NOT along
+// Versions: LoadPackage points `Versions[i].Package` back at the owner when a version's directory is the package's
+// own (`v2: .`). A function that calls itself on a *PackageInfo without a set of visited packages therefore recurses
+// only through `….Imports`, never through `….Versions`.
+// ---------------------------------------------------------------------------------------------------------------
+func rulePackageWalksRecurseThroughImportsOnly(c *core.Ctx) {
+	const rule = "TR1"
+	c.Rule(rule, "pkg/packaging, internal/cmd: a function that calls itself with a *PackageInfo and keeps no set of visited packages takes the argument from a range over `.Imports`, never from `.Versions` (a version entry may point back at its owner)", 1)
+	n := 0
+	for _, d := range c.AllDecls() {
+		p := c.DeclPkg(d)
+		if p == nil || d.Body == nil || c.IsTestFile(d.Pos()) || !(strings.HasSuffix(p.PkgPath, "/pkg/packaging") || strings.HasSuffix(p.PkgPath, "/internal/cmd")) {
+			continue
+		}
+		info := p.TypesInfo
+		self, _ := info.Defs[d.Name].(*types.Func)
+		if self == nil {
+			continue
+		}
+		isPI := func(t types.Type) bool {
+			nt := core.NamedOf(derefType(t))
+			return nt != nil && nt.Obj().Name() == "PackageInfo"
+		}
+		hasVisited := false
+		for _, f := range d.Type.Params.List {
+			if t := info.TypeOf(f.Type); t != nil {
+				if _, isMap := derefType(t).Underlying().(*types.Map); isMap {
+					hasVisited = true
+				}
+			}
+		}
+		// range variables and the collection they range over
+		rangeOf := map[types.Object]string{}
+		ast.Inspect(d.Body, func(m ast.Node) bool {
+			if rs, ok := m.(*ast.RangeStmt); ok && rs.Value != nil {
+				if se, ok := ast.Unparen(rs.X).(*ast.SelectorExpr); ok {
+					if o := identObj(info, rs.Value); o != nil {
+						rangeOf[o] = se.Sel.Name
+					}
+				}
+			}
+			return true
+		})
+		k := 0
+		ast.Inspect(d.Body, func(m ast.Node) bool {
+			ce, ok := m.(*ast.CallExpr)
+			if !ok {
+				return true
+			}
+			fn, _ := typeutil.Callee(info, ce).(*types.Func)
+			if fn == nil || fn.Origin() != self {
+				return true
+			}
+			for _, a := range ce.Args {
+				if t := info.TypeOf(a); t == nil || !isPI(t) {
+					continue
+				}
+				n++
+				k++
+				from := ""
+				ast.Inspect(a, func(q ast.Node) bool {
+					switch y := q.(type) {
+					case *ast.Ident:
+						if s, ok := rangeOf[info.ObjectOf(y)]; ok {
+							from = s
+						}
+					case *ast.SelectorExpr:
+						if y.Sel.Name == "Versions" || y.Sel.Name == "Imports" {
+							from = y.Sel.Name
+						}
+					}
+					return true
+				})
+				c.Check(from != "Versions" || hasVisited, rule, fmt.Sprintf("%s/recursive call#%d", c.FuncName(d), k), ce.Pos(), "recurses through "+from,
+					"the function calls itself with a package taken from `.Versions` and keeps no set of visited packages: for a package that lists itself as one of its versions (`versions: {v2: .}`) the entry points back at the owner and the recursion never ends — validate and generate hang before any model file is read")
+			}
+			return true
+		})
+	}
+	if n == 0 {
+		c.Undecided(rule, "anchor/recursive package walks", 0, "none found")
+	}
+}
